@@ -41,6 +41,15 @@ def cases(tier, rng):
             ops += ["conn 0", "xchg 0", "xchg %d" % (m + 1), "monitor"]
             out.append("m%d rt %s mon / %s" % (k, t, " / ".join(ops)))
             k += 1
+        # a handshake that must be refused (incompatible Socket-Type) and claims the identity of an established peer:
+        # the peer set stays as it was, the established peer keeps exchanging messages
+        imp = "PULL" if t in ("SUB", "XPUB") else "PUB"
+        for transport in ("tcp4", "ipc"):
+            for ident in ("616c696365", "00" + "41" * 8):
+                ops = ["bind " + transport, "conn 0 id=" + ident, "xchg 0", "impostor 0 id=%s as=%s" % (ident, imp), "xchg 0",
+                       "impostor 0 id=%s as=%s" % (ident, imp), "conn 0", "xchg 0", "xchg 3", "monitor"]
+                out.append("i%d rt %s mon / %s" % (k, t, " / ".join(ops)))
+                k += 1
         # many simultaneous misbehaving clients (k is not bounded by the property: any fixed cap on pending handshakes is a violation)
         for transport in (("tcp4", "ipc") if tier == "thorough" else (rng.choice(["tcp4", "ipc"]),)):
             for m in ((17, 33, 64, 130) if tier == "thorough" else (20, 48)):
@@ -83,7 +92,7 @@ def judge(line, obs, orc):
         b = hb[:off] + (bytes([0x13]) * 97 if mode == "garbage" else b"")
         mcases.append("v%d admit %s %s%s" % (i, t, W.tok(b) if b else ".", " eof" if mode == "close" else ""))
     verdicts = C.run_model(mcases, "C20.verdicts") if mcases else {}
-    nfail = sum(1 for v in verdicts.values() if v.startswith("err"))
+    nfail = sum(1 for v in verdicts.values() if v.startswith("err")) + sum(1 for op in ops if op[0] == "impostor")
     nacc = sum(1 for v in verdicts.values() if v.startswith("ok"))
     # a client that completes its handshake and closes at once may see its registration succeed or
     # fail on the library's own writes (outcome of a race with the OS): both are fine
